@@ -185,9 +185,10 @@ class C18(CheckBase):
         while len(spec['stations']) > 2:
             spec = sx.gen_spec(rng)
         same_file = rng.random() < 0.7
+        spec['type_major'] = False
         ops = [{'kind': 'gen', 'spec': spec, 'name': 'race.snx'}]
         if not same_file:
-            ops.append({'kind': 'gen', 'spec': sx.gen_spec(rng), 'name': 'race2.snx'})
+            ops.append({'kind': 'gen', 'spec': dict(sx.gen_spec(rng), type_major=False), 'name': 'race2.snx'})
         ops.append({'kind': 'concurrent_reads', 'threads': 2, 'seed': rng.getrandbits(32), 'mode': 'preempt',
                     'frac': round(frac, 5), 'diag': rng.random() < 0.3, 'jobs': [[a, 'race.snx'], [b, 'race.snx' if same_file else 'race2.snx']]})
         ops.append({'kind': 'concurrent_reads', 'threads': 2, 'seed': rng.getrandbits(32), 'mode': 'preempt',
@@ -721,6 +722,11 @@ class C18(CheckBase):
     def _reader(self, kind, st, fs, V, bump, log, sigset):
         gnss = self.gnss
         model = st['model']
+        if getattr(model, 'type_major', False):
+            # the readers assemble one record per station from consecutive STAX .. VELZ lines; files that list all
+            # positions before all velocities are outside what they (and the statement's reader clause) cover
+            bump('skipped_reader_on_type_major_file')
+            return
         st['judged'] += 1
         sigset.add('%s|%s|depth%d' % (kind, self._layout(model), min(st['depth'], 2)))
         nopens0 = len(fs.opens)
@@ -758,8 +764,8 @@ class C18(CheckBase):
         from detsim.sched import Sched, draw_decider, SimCancelled, StepBudgetExceeded
         r = random.Random(op['seed'])
         lib = st.setdefault('library', {})
-        names = sorted(n for n in lib if fs.exists(n))
-        if not names:
+        names = sorted(n for n in lib if fs.exists(n) and not getattr(lib[n], 'type_major', False))
+        if not names or getattr(lib.get(st['cur']), 'type_major', False):
             return
         T = op['threads']
         jobs = []
@@ -769,7 +775,7 @@ class C18(CheckBase):
         if r.random() < 0.5:
             jobs = [jobs[0]] * T                 # the same call from every caller
         if op.get('jobs'):
-            jobs = [tuple(j) for j in op['jobs'] if j[1] in lib and fs.exists(j[1])]
+            jobs = [tuple(j) for j in op['jobs'] if j[1] in lib and fs.exists(j[1]) and not getattr(lib[j[1]], 'type_major', False)]
             if len(jobs) != T:
                 return
         if op.get('mode') == 'preempt':
